@@ -185,9 +185,18 @@ def impl_oracle(c):
         k = x["k"]
         if x["res"] == "ok":
             if not x.get("sent"):
-                out.append(("success-without-reply",
-                            "call %d returned success although its request never reached the peer "
-                            "and no reply was sent for it" % k))
+                # the only thing that can have completed it is a reply the peer sent to some other call
+                others = {y.get("id"): y["k"] for y in c["callers"] if y["k"] != k and y.get("id") is not None}
+                src = [f for f in frames if f.get("whole") and f.get("id") in others]
+                if src:
+                    out.append(("foreign-reply",
+                                "call %d returned success although its request never reached the peer: it was "
+                                "completed by the reply the peer sent to call %d (id %s), a result that belongs "
+                                "to another caller" % (k, others[src[0]["id"]], src[0]["id"])))
+                else:
+                    out.append(("success-without-reply",
+                                "call %d returned success although its request never reached the peer "
+                                "and no reply was sent for it" % k))
                 continue
             mine = [f for f in frames if f.get("whole") and f["id"] == x.get("id") and f["typ"] == x["typ"]
                     and f["ec"] == 0 and (f.get("fields") or []) == (x.get("fields") or [])]
@@ -227,6 +236,7 @@ def run(ck):
     if ck.thorough and proofs_ok:
         ck.coqchk(["Verif.Props.C03"])
 
+    ck.log("built the proofs")
     binp = ck.build_harness("c03")
     cases = []
     replayed = rpc_common.replay_case(ck)
@@ -244,6 +254,7 @@ def run(ck):
         for line in out.splitlines():
             if line.startswith("{"):
                 cases.append(json.loads(line))
+    ck.log("harness run done: %d cases" % len(cases))
     if binp and replayed is None:
         # histories under the race detector (ownership of the pending table and of a fetched exchange;
         # cancelled callers whose reply arrives late; forced early replies): child mode, so that the
@@ -260,6 +271,7 @@ def run(ck):
                 ck.violation("impl:data-race", "the race detector reports a data race in the transport",
                              {"race_report": err[err.find("WARNING: DATA RACE"):][:3000]})
 
+    ck.log("race-detector run done")
     kinds = {}
     shrunk = set()
     skipped = [c for c in cases if c.get("skipped")]
@@ -297,6 +309,7 @@ def run(ck):
         ck.sample({"stream": c["stream"], "steps": c["steps"],
                    "callers": [(x["k"], x["kind"], x["res"]) for x in c["callers"]]})
 
+    ck.log("oracle and shrinking done")
     model_ok = all(built.get(x) for x in MODEL)
     ck.coverage["stress_calls"] = {k: sum((c.get("stress") or {}).get(k, 0) for c in cases if c["stream"] == "stress")
                                    for k in ("ok", "alreadyshutdown", "eof")}
